@@ -293,6 +293,7 @@ unsafe impl GlobalAlloc for SimHeap {
                     if list[k].0 != 0 && list[k].1 == layout.size() && list[k].2 == layout.align() {
                         p = list[k].0 as *mut u8;
                         list[k] = (0, 0, 0);
+                        crate::trace::bump(crate::trace::C::heap_blocks_reused);
                         break;
                     }
                 }
